@@ -188,9 +188,8 @@ func (i *interpreter) decide(c *Term) bool {
 		var m Model
 		fast := -1
 		if !i.cfg.NoFastPath {
-			var bv *Term
-			var val uint8
-			fast, bv, val = i.doms.fastSide(c, mv)
+			var ch []domAssign
+			fast, ch = i.doms.fastSide(c, mv, i.model)
 			switch fast {
 			case 0:
 				v = Unsat
@@ -199,10 +198,12 @@ func (i *interpreter) decide(c *Term) bool {
 				v = Sat
 				m = make(Model, len(i.model))
 				copy(m, i.model)
-				for uint64(len(m)) <= bv.val {
-					m = append(m, 0)
+				for _, a := range ch {
+					for uint64(len(m)) <= a.v.val {
+						m = append(m, 0)
+					}
+					m[a.v.val] = uint64(a.val)
 				}
-				m[bv.val] = uint64(val)
 				i.stats.FastDecisions++
 			}
 		}
